@@ -5,7 +5,7 @@
 
 Outcome: dict(violation=None|{cls,msg,attrs,step}, digest, nontrivial, stats, extra)
 """
-from ..common import rng_for, digest, canon, tuplify, same
+from ..common import rng_for, digest, canon, tuplify, same, plain
 from .model import Spec, Model, path_str
 from .gen import swarm_config, gen_spec, HistoryGen
 from .execute import Exec, Violation, PROPAGATING
@@ -27,6 +27,7 @@ def case_from_json(j):
 def gen_history_case(ctx, run, prop, **over):
     rc = rng_for(ctx.seed, prop, run, "cfg")
     cfg = swarm_config(rc, ctx.tier, **over)
+    cfg["nplit"] = rc.random() < 0.2       # numpy scalars as literals inside expressions
     cfg["npkeys"] = rc.random() < 0.4      # numpy-integer / bool item keys (never in workloads that go through printed text)
     if cfg["npkeys"]:
         cfg["weights"]["load"] = 0
@@ -374,7 +375,9 @@ class C18:
                         sub = replay_prefix(xd, spec, cfg, ops, ci)
                         before = O.snapshot(sub.world)
                         where = "op %d (%s %s) with fault %s#%d" % (ci, op[0], path_str(op[1]), kind, k)
-                        fst = sub.step(op, fault={"kind": kind, "n": k, "fired": False, "tag": k})
+                        etype = ("plain", "zerodiv", "key", "value", "type", "os")[(k + ci + len(kind)) % 6]
+                        count("fault_type:" + etype)
+                        fst = sub.step(op, fault={"kind": kind, "n": k, "fired": False, "tag": k, "exc": etype})
                         nfaults += 1
                         count("events", len(fst.trace) if fst is not None else 0)
                         count("fault:%s_raises" % {"w": "write", "r": "read", "act": "action"}[kind])
@@ -382,7 +385,8 @@ class C18:
                         # optionally a second faulty attempt in a row
                         if case.get("double") and len(ks) > 1:
                             k2 = ks[(ks.index(k) * 7 + 3) % len(ks)]
-                            tr, exc = run_traced(lambda: sub.world.apply(op), {"kind": kind, "n": k2, "fired": False, "tag": k2})
+                            tr, exc = run_traced(lambda: sub.world.apply(op), {"kind": kind, "n": k2, "fired": False, "tag": k2,
+                                                                                 "exc": ("zerodiv", "plain", "key")[k2 % 3]})
                             nfaults += 1
                             count("fault:second_in_a_row")
                             fst2 = type(fst)()
@@ -522,6 +526,11 @@ class C17:
                 a = ("copyfrom", ((p, hg.eg.gen(spec.leaf_type[p], 1, True)),), ra.random() < 0.7)
                 if classify_frozen(hg.model, a) is not None:
                     out.append(a)
+            # re-assigning the value a location already holds is still an assignment: its dependants are run again
+            plain = [l for l in free if l not in hg.model.defs]
+            if plain:
+                p = ra.choice(plain)
+                out.append(("setv", p, hg.model.val[p], ra.choice(["item", "mgr"])))
             out.append(("refresh",))
             out.append((ra.choice(["verify", "cleanup", "clonechk"]),))
             ra.shuffle(out)
@@ -594,6 +603,8 @@ class C17:
                         if st.info.trig:
                             count("plain_with_dependants")
                         ex.check_contents(st.info.values, where, st.info, prop)
+                        # "still updates all their dependants": the triggered tasks really run (exactly once, in order)
+                        ex.check_trace(st, prop)
                         continue
                     before = O.snapshot(w)
                     if a[0] == "clonechk":
@@ -707,6 +718,7 @@ class C12:
         wo = {"regf": 0, "unregf": 0, "regk": 3 if rc.random() < 0.3 else 0, "unregk": 1, "sete": 45, "inpl": 10}
         cfg = swarm_config(rc, ctx.tier, weights_over=wo)
         cfg["g_restricted"] = rc.random() < 0.85
+        cfg["nplit"] = rc.random() < 0.2
         spec = gen_spec(rng_for(ctx.seed, "C12", run, "spec"), cfg)
         hg = HistoryGen(rng_for(ctx.seed, "C12", run, "ops"), cfg, spec)
         ops = hg.history()
@@ -1116,6 +1128,7 @@ class C13:
         rc = rng_for(ctx.seed, "C13", run, "cfg")
         wo = {"regf": 0, "unregf": 0, "regk": 0, "unregk": 0, "sete": 55, "inpl": 8, "setv": 15, "unreg": 3}
         cfg = swarm_config(rc, ctx.tier, weights_over=wo, g_restricted=True)
+        cfg["nplit"] = rc.random() < 0.3
         spec = gen_spec(rng_for(ctx.seed, "C13", run, "spec"), cfg)
         hg = HistoryGen(rng_for(ctx.seed, "C13", run, "ops"), cfg, spec)
         rm = rng_for(ctx.seed, "C13", run, "markers")
@@ -1185,7 +1198,9 @@ class C13:
                     if st.exc is not None or exc2 is not None:
                         raise Violation(prop + ".exception", "op %d (%s) raised %s" % (i, op[0], st.exc or exc2))
                     try:
-                        ex.check_contents(st.info.values, "op %d" % i, st.info, prop)
+                        # loose: after a generated function ran, locations hold python numbers where the manager
+                        # would have stored numpy scalars (the source prints a numpy literal as a plain number)
+                        ex.check_contents(st.info.values, "op %d" % i, st.info, prop, loose=True)
                     except Violation:
                         ex.count("stopped_on_content_mismatch")     # C01's business
                         break
@@ -1290,10 +1305,11 @@ class C13:
                 ex.model.adopt(m2)
                 c1, c2 = S.contents(), T.contents()
                 for loc in spec.leaves:
-                    if not same(c1[loc], c2[loc]):
+                    # the generated source prints a numpy-scalar literal as a plain number: same value, python type
+                    if not same(plain(c1[loc]), plain(c2[loc])):
                         raise Violation(prop + ".differs", "%s: %s holds %r after the generated function, %r after assigning through the manager"
                                         % (where, path_str(loc), c1[loc], c2[loc]))
-                    if not same(c1[loc], values[loc]):
+                    if not same(plain(c1[loc]), plain(values[loc])):
                         raise Violation(prop + ".model", "%s: %s holds %r, the definitions give %r" % (where, path_str(loc), c1[loc], values[loc]))
         except Violation as v:
             return _outcome(ex, v, i, calls > 0)
